@@ -29,21 +29,27 @@
 (*           neither end closed (DESIGN.md 6 row 16).  DevLimiter = FALSE models the limiter as   *)
 (*           the statement needs it (the wait is split into burst-sized pieces).                  *)
 (*                                                                                                *)
-(* Start of the copiers: Start() launches the s2t goroutine, then the t2s goroutine; each evaluates   *)
-(* b.targetForwarder itself, when it first runs.  Close() sets that field to nil.  If one copier   *)
-(* ends at once (an end was already closed / failed when the target attached) and Close() completes *)
-(* before the t2s goroutine has started, CopyWithControl is entered with a nil reader and the       *)
-(* server process dies of a nil dereference (named deviation DevNilForwarder, flag `crashed`;       *)
-(* DevNilFwd = FALSE models a snapshot of the forwarder taken before the goroutines start).         *)
-(* (The s2t goroutine cannot be caught the same way: Close() clears the source forwarder first and  *)
-(* the goroutine then waits for the cancelled context.)                                             *)
+(* Start of the copiers: Start() launches the s2t goroutine, then the t2s goroutine; each         *)
+(* evaluates b.targetForwarder itself when it first runs, and Close() sets that field to nil.     *)
+(* If one copier ends at once (an end was already closed / failed when the target attached) and   *)
+(* Close() completes before the t2s goroutine has started, CopyWithControl is entered with a nil  *)
+(* reader and the server process dies of a nil dereference (named deviation in Enter, flag        *)
+(* `crashed`; DevNilFwd = FALSE models a snapshot of the forwarder taken before the goroutines    *)
+(* start).  The s2t goroutine cannot be caught the same way: Close() clears the source forwarder  *)
+(* first and the goroutine then waits for the cancelled context.                                  *)
 (*                                                                                                *)
 (* Source replacement (handleExistingBridge -> SetSourceConnection): the new connection becomes   *)
 (* the write side of t2s at once (dynamicSourceWriter); the s2t copier keeps reading the OLD      *)
 (* connection until that read ends, then continues with the new one.  Close() closes only the     *)
-(* current connections, never the replaced one (named deviation DevStaleSource: a copier parked   *)
+(* current connections, never the replaced one (named deviation, ghost devStale: a copier parked  *)
 (* in Read on the replaced connection keeps Start() from returning, the tunnel stays registered   *)
-(* and a close of the source's new connection goes unnoticed).                                    *)
+(* and a close of the source's new connection goes unnoticed).  DevStaleSrc = FALSE models        *)
+(* SetSourceConnection closing the connection it replaces.                                        *)
+(*                                                                                                *)
+(* Configurations: Bridge_mc.cfg (as found, clauses in "or the named deviation happened" form),   *)
+(* Bridge_fixed.cfg (as the statement needs it, strict clauses), Bridge_live.cfg /                *)
+(* Bridge_live_fixed.cfg (liveness under weak fairness, as found / as needed), Bridge_gen.cfg     *)
+(* (behaviour generation), Bridge_show_*.cfg (documentation: the strict clauses fail as found).   *)
 EXTENDS Naturals, Sequences, FiniteSets, TLC, Json
 
 CONSTANTS BUF,         \* copy buffer size (model scale, >= 3)
@@ -212,14 +218,16 @@ Drop(d) == lost' = [lost EXCEPT ![d] = @ + inflight[d]] /\ inflight' = [inflight
 
 \* the t2s goroutine starts running: it evaluates b.targetForwarder and enters CopyWithControl
 Enter(d) ==
-  /\ pc[d] = "start" /\ ~crashed
+  /\ pc[d] = "start"
   /\ IF bridgeClosed /\ DevNilFwd
-     THEN \* DEVIATION: Close() has already set the field to nil -> src.Read on a nil interface: panic
-          crashed' = TRUE /\ pc' = [pc EXCEPT ![d] = "done"]
-     ELSE crashed' = crashed /\ pc' = [pc EXCEPT ![d] = "read"]
+     THEN \* DEVIATION: Close() has already set the field to nil -> src.Read on a nil interface: panic.
+          \* The process is gone: nothing runs any more, the kernel closes its sockets, its tunnel map
+          \* does not exist any longer.
+          /\ crashed' = TRUE /\ pc' = [x \in Dirs |-> "done"] /\ registered' = FALSE
+     ELSE /\ crashed' = crashed /\ pc' = [pc EXCEPT ![d] = "read"] /\ registered' = registered
   /\ NoH
   /\ LimU /\ FaultU /\ RepU
-  /\ UNCHANGED <<attached, endSt, avail, sent, delivered, rdOff, inflight, rdgen, bridgeClosed, registered, nsend, ended,
+  /\ UNCHANGED <<attached, endSt, avail, sent, delivered, rdOff, inflight, rdgen, bridgeClosed, nsend, ended,
                  devLimErr, devStale, lost, misorder, dropped>>
 
 \* src.Read(buf)
@@ -365,9 +373,7 @@ Env == \/ \E e \in Ends : \E c \in Classes : Send(e, c)
        \/ \E e \in Ends : CloseEnd(e) \/ ErrorEnd(e) \/ Arm(e) \/ Glitch(e)
        \/ ReplaceSource \/ CloseOld \/ ExtClose
 Sys == (\E d \in Dirs : Copier(d)) \/ Refill \/ CloseBridge \/ Unregister \/ ReadyTimeout \/ MarkStale
-\* a crashed server process does nothing any more (its sockets are closed by the kernel, its tunnel map
-\* is gone with it): `crashed` is absorbing
-Next == ~crashed /\ (Env \/ Sys)
+Next == Env \/ Sys
 Spec == Init /\ [][Next]_vars
 
 \* weak fairness on the copiers, the clock, Close and the lifecycle goroutine - not on the environment
@@ -397,12 +403,6 @@ NoSpontaneousEndKnown == Untouched => (devLimErr \/ (~bridgeClosed /\ \A d \in D
 Idle(d) == pc[d] = "read" /\ avail[RdChan(d)] = <<>> /\ ~glitch[Src(d)]
 Complete      == (Untouched /\ attached /\ ~replaced /\ \A d \in Dirs : Idle(d)) => \A d \in Dirs : delivered[d] = sent[d]
 CompleteKnown == (Untouched /\ attached /\ ~replaced /\ \A d \in Dirs : Idle(d)) => (devLimErr \/ \A d \in Dirs : delivered[d] = sent[d])
-
-\* a graceful close after the end's own last write, with nothing outstanding towards it, loses nothing:
-\* once the tunnel is gone everything that end sent has been delivered
-GracefulTail(e) == /\ ended = "close" /\ endSt[e] = "closed" /\ ~registered /\ ~replaced
-                   /\ sent[OutOf(Other(e))] = delivered[OutOf(Other(e))]
-\* (stated for runs in which the peer stayed silent after the close - the generator's scripts; see BridgeTrace)
 
 \* both directions progress independently: a direction with unread or buffered bytes can always take
 \* a step (or only waits for the clock) while the tunnel is up - whatever the other direction does
